@@ -476,11 +476,15 @@ class Locale:
         if self.code not in ("en", "en_US"):
             return str(value)
         s = str(value)
+        sign = ""
+        if s.startswith("-"):
+            # Group only the digits; the sign is not part of a group.
+            sign, s = "-", s[1:]
         parts = []
         while s:
             parts.append(s[-3:])
             s = s[:-3]
-        return ",".join(reversed(parts))
+        return sign + ",".join(reversed(parts))
 
 
 class CSVLocale(Locale):
